@@ -124,6 +124,14 @@ func nontrivial(r *Run) bool {
 
 func classify(r *Run, prop Property) []Violation {
 	var v []Violation
+	if r.Stack != nil && r.Stack.Rec != nil {
+		// The write log is appended to after each write's read-back; with scheduling points inside the repository
+		// code two decorators can finish in the opposite order of their writes. Every entry carries the time at
+		// which its write returned: that, not the order of the appends, is the order of effect the oracles read.
+		r.Stack.Rec.mu.Lock()
+		sort.SliceStable(r.Stack.Rec.Repo, func(i, j int) bool { return r.Stack.Rec.Repo[i].At < r.Stack.Rec.Repo[j].At })
+		r.Stack.Rec.mu.Unlock()
+	}
 	v = append(v, r.Viol...)
 	v = append(v, prop.Check(r)...)
 	sort.SliceStable(v, func(i, j int) bool { return v[i].Class < v[j].Class })
